@@ -21,21 +21,32 @@ type subTask interface {
 type subscriptions []Subscription
 
 func (s subscriptions) applyTo(d *subscriptions) {
-	*d = append(*d, s...)
+	for _, sub := range s {
+		var found bool
+		for i, e := range *d {
+			if e.Topic == sub.Topic {
+				(*d)[i] = sub
+				found = true
+				break
+			}
+		}
+		if !found {
+			*d = append(*d, sub)
+		}
+	}
 }
 
 type unsubscriptions []string
 
 func (s unsubscriptions) applyTo(d *subscriptions) {
-	l := len(*d)
 	for _, topic := range s {
-		for i, e := range *d {
-			if e.Topic == topic {
-				l--
-				(*d)[i] = (*d)[l]
-				break
+		l := 0
+		for _, e := range *d {
+			if e.Topic != topic {
+				(*d)[l] = e
+				l++
 			}
 		}
+		*d = (*d)[:l]
 	}
-	*d = (*d)[:l]
 }
